@@ -67,7 +67,13 @@ let rec lint_on usize_bits l t =
   | LSigned v ->
     if Z.ltb v Z0 then Z.ltb v (vt_min t) else Z.ltb (lint_max usize_bits t) v
   | LBit v -> Z.ltb (lint_max usize_bits t) v
-  | LNeg l' -> lint_on usize_bits l' t
+  | LNeg l' ->
+    (match l' with
+     | LBit v ->
+       if vt_is_signed t
+       then Z.ltb (Z.add (lint_max usize_bits t) (Zpos Coq_xH)) v
+       else Z.ltb (lint_max usize_bits t) v
+     | _ -> lint_on usize_bits l' t)
 
 (** val lint : lit -> prim -> bool **)
 
